@@ -15,3 +15,5 @@ def check(ctx, prog):
     optimize.rule_domain_source(ctx, prog)
     dispatch.rule_mode_arith(ctx, prog)
     dispatch.rule_swallowed_raise(ctx, prog)
+    dispatch.rule_mode_sort(ctx, prog)
+    dispatch.rule_sentinel_store(ctx, prog)
